@@ -91,7 +91,9 @@ class ConfigModel:
 
     def set_ok(self, arg, lit):
         self.changes += 1
-        if isinstance(arg, str):
+        if isinstance(arg, str) and arg not in self.presets:
+            self.known = False         # an unknown preset name was accepted: what is in force now is anyone's guess
+        elif isinstance(arg, str):
             self.table = dict(self.presets[arg])
             self.src = ("preset", arg)
             self.known = True
